@@ -261,3 +261,74 @@ def resolve_ref_dict(I: Interp, t, tree):
         else:
             out[("dyn", k)] = (v, g)
     return out
+
+
+# ---- decision-tree comparison of cond terms ------------------------------------------------------
+def _test_atoms(c, acc):
+    """Atomic tests of a condition (cond / not / and-or structure is decomposed)."""
+    if not isinstance(c, tuple) or not c or is_const(c):
+        return
+    if c[0] == "not":
+        _test_atoms(c[1], acc)
+    elif c[0] == "bool":
+        for x in c[2]:
+            _test_atoms(x, acc)
+    elif c[0] == "cond":
+        _test_atoms(c[1], acc)
+        _test_atoms(c[2], acc)
+        _test_atoms(c[3], acc)
+    elif c not in acc:
+        acc.append(c)
+
+
+def cond_atoms(t, acc=None):
+    if acc is None:
+        acc = []
+    if isinstance(t, tuple) and t:
+        if t[0] == "cond":
+            _test_atoms(t[1], acc)
+        for x in t:
+            if isinstance(x, tuple):
+                cond_atoms(x, acc)
+    return acc
+
+
+def eval_test(c, assign):
+    if is_const(c):
+        return bool(c[1])
+    if c in assign:
+        return assign[c]
+    if c[0] == "not":
+        return not eval_test(c[1], assign)
+    if c[0] == "bool":
+        vals = [eval_test(x, assign) for x in c[2]]
+        return any(vals) if c[1] == "or" else all(vals)
+    if c[0] == "cond":
+        return eval_test(c[2], assign) if eval_test(c[1], assign) else eval_test(c[3], assign)
+    raise KeyError(c)
+
+
+def resolve_conds(t, assign: dict):
+    if not isinstance(t, tuple) or not t:
+        return t
+    if t[0] == "cond":
+        try:
+            v = eval_test(t[1], assign)
+        except KeyError:
+            return tuple(resolve_conds(x, assign) if isinstance(x, tuple) else x for x in t)
+        return resolve_conds(t[2] if v else t[3], assign)
+    return tuple(resolve_conds(x, assign) if isinstance(x, tuple) else x for x in t)
+
+
+def decisions(t, limit=12):
+    """All (assignment, resolved term) pairs of a term over the truth assignments of the atomic tests on its cond spine;
+    None when there are more than ``limit`` atoms."""
+    import itertools
+    atoms = cond_atoms(t)
+    if len(atoms) > limit:
+        return None
+    out = []
+    for bits in itertools.product((False, True), repeat=len(atoms)):
+        a = dict(zip(atoms, bits))
+        out.append((a, resolve_conds(t, a)))
+    return out
